@@ -44,6 +44,8 @@ def py_bind(sig, call):
     if extra and a is None:
         return None
     kw = []
+    if any(not isstr for isstr in call.get('kw_is_str') or []):
+        return None              # keywords must be strings
     allnamed = list(call['named']) + list(call['kw'] or [])
     seen = set()
     for name, v in allnamed:
@@ -205,8 +207,40 @@ def contracts(shape):
         v = d(ex, args[0])
         return ret(mk([('val', Struct([kk, vv])) for kk, vv in v.fields]), path)
 
-    def c_some_first(ex, st, args, path, callee):
-        return ret(SOME(d(ex, args[0])), path)
+    def c_string_value_new(ex, st, args, path, callee):
+        """StringValue::new(key): Some iff the key is a string (the mapping keys carry a solver-chosen `is a string` flag)"""
+        key = d(ex, args[0])
+        flag = shape['isstr'].get(str(key))
+        if flag is None:
+            return ret(SOME(key), path)
+        out = []
+        for c, v in ((flag, SOME(key)), (z3.Not(flag), NONE())):
+            p = path.add(c)
+            if ex.feasible(p.conds):
+                out.append(('ret', v, p))
+        return out
+
+    def c_split_at(ex, st, args, path, callee):
+        v = ex.deref(st['mem'], args[0])
+        mid = z3.simplify(args[1]) if z3.is_expr(args[1]) else args[1]
+        out = []
+        for c in range(len(v.elems) + 1):
+            p = path.add(mid == c)
+            if ex.feasible(p.conds):
+                out.append(('ret', Struct([Slice(z3.IntVal(c), v.elems[:c], 'head'), Slice(z3.IntVal(len(v.elems) - c), v.elems[c:], 'tail')]), p))
+        p = path.add(mid > len(v.elems))
+        if ex.feasible(p.conds):
+            ex.add_panic(p, f'split_at: mid > len ({len(v.elems)})', callee)
+        return out
+
+    def c_extend_from_slice(ex, st, args, path, callee):
+        r = args[0]
+        v = ex.read_ref(st['mem'], r)
+        more = d(ex, args[1])
+        st2 = dict(st)
+        st2['mem'] = dict(st['mem'])
+        ex.write_ref(st2, r, Slice(z3.IntVal(len(v.elems) + len(more.elems)), list(v.elems) + list(more.elems), 'vec'))
+        return [('ret', Struct([]), path, st2['mem'])]
 
     def c_alloc_tuple(ex, st, args, path, callee):
         v = d(ex, args[1])
@@ -295,7 +329,9 @@ def contracts(shape):
         ('DictRef::from_value on the **mapping = Some (a dict)', r'^DictRef::<.*>::from_value$', c_dict_from_value),
         ('<DictRef as Deref>::deref = the dict', r'^<DictRef<.*> as Deref>::deref$', c_first_val),
         ('Dict::iter_hashed = its (key, value) pairs in order', r'Dict::<.*>::iter_hashed', c_iter_hashed),
-        ('StringValue::new(key) = Some (mapping keys are strings)', r'^ValueTyped::<.*StarlarkStr>::new$', c_some_first),
+        ('StringValue::new(key) = Some iff the key is a string (flag per mapping key)', r'^ValueTyped::<.*StarlarkStr>::new$', c_string_value_new),
+        ('[T]::split_at(mid): case split on mid', r'slice::<impl \[.*\]>::split_at$', c_split_at),
+        ('Vec::extend_from_slice', r'^Vec::<.*>::extend_from_slice$', c_extend_from_slice),
         ('Heap::alloc_tuple = the tuple of the items', r'alloc_tuple$', c_alloc_tuple),
         ('coerce = identity', r'^coerce::<|::coerce::<', c_first_val),
         ('Dict::new(map) = the dict', r'Dict::<.*>::new$', c_dict_new),
@@ -382,7 +418,10 @@ def run_shape(sess, ob, sig, call):
         conds += [x >= 0, x <= n + 1] + [x != s_ for s_ in (a, k) if s_ is not None]
     conds += [z3.Distinct(*an)] if len(an) > 1 else []
     conds += [z3.Distinct(*kn)] if len(kn) > 1 else []
-    shape = {'n': n, 'regular': regular, 'npo': npo}
+    ks = [z3.Bool(f'key{j}_is_str') for j in range(W or 0)]
+    for j in range(W or 0):
+        conds.append(z3.Implies(z3.Not(ks[j]), kn[j] == n + 1 - (j % 2)))      # a non-string key equals no name
+    shape = {'n': n, 'regular': regular, 'npo': npo, 'isstr': {str(kn[j]): ks[j] for j in range(W or 0)}}
     ex = sess.executor(True, extra=contracts(shape))
     ex.max_depth = 40
     mexec.ENUMS['ParameterKind'] = PK
@@ -401,7 +440,7 @@ def run_shape(sess, ob, sig, call):
     fn = ex.get_fn(sess.db.find_in_file('params/spec.rs', 'collect_inline_impl'))
     outs = ex.run(fn, [Ref(('h', 'spec')), Ref(('h', 'args')), Ref(('h', 'slots')), Opaque('heap')], Path(conds), mem=mem)
     ob.paths += len(outs)
-    allv = kinds + [npos, npo] + an + kn
+    allv = kinds + [npos, npo] + an + kn + ks
     inst = 0
     for v, p, m in outs:
         blocked = []
@@ -418,9 +457,11 @@ def run_shape(sess, ob, sig, call):
             kv = vals[:n]
             s = {'kinds': [PK[x] for x in kv], 'npos': vals[n], 'nposonly': vals[n + 1]}
             anv = vals[n + 2:n + 2 + K]
-            knv = vals[n + 2 + K:]
+            knv = vals[n + 2 + K:n + 2 + K + (W or 0)]
+            ksv = vals[n + 2 + K + (W or 0):]
             c = {'pos': [100 + j for j in range(P)], 'named': [(anv[j], 200 + j) for j in range(K)],
-                 'star': None if S is None else [300 + j for j in range(S)], 'kw': None if W is None else [(knv[j], 400 + j) for j in range(W)]}
+                 'star': None if S is None else [300 + j for j in range(S)], 'kw': None if W is None else [(knv[j], 400 + j) for j in range(W)],
+                 'kw_is_str': [bool(x) for x in ksv]}
             want = py_bind(s, c)
             if v.variant == 'Ok':
                 sl = ex.deref(m, m[('h', 'slots')])
@@ -438,6 +479,186 @@ def run_shape(sess, ob, sig, call):
             vals = [model_int(model, t) for t in allv]
             ob.fail({'kind': 'bind', 'sig': {'kinds': [PK[x] for x in vals[:n]], 'npos': vals[n], 'nposonly': vals[n + 1]}, 'panic': pn.msg, 'code': 'panic', 'reference': 'no panic',
                      'call': {'pos': [100 + j for j in range(P)], 'named': [(x, 200 + j) for j, x in enumerate(vals[n + 2:n + 2 + K])], 'star': None if S is None else [300 + j for j in range(S)],
-                              'kw': None if W is None else [(x, 400 + j) for j, x in enumerate(vals[n + 2 + K:])]}})
+                              'kw': None if W is None else [(x, 400 + j) for j, x in enumerate(vals[n + 2 + K:n + 2 + K + (W or 0)])], 'kw_is_str': [bool(x) for x in vals[n + 2 + K + (W or 0):]]}})
+    sess.absorb(ex)
+    return inst
+
+
+# ------------------------------------------------------------------------------------------- the signature builder
+def builder_contracts():
+    def c_vec_new(ex, st, args, path, callee):
+        return ret(Slice(z3.IntVal(0), [], 'vec'), path)
+
+    def c_vec_push(ex, st, args, path, callee):
+        r = args[0]
+        v = ex.read_ref(st['mem'], r)
+        st2 = dict(st)
+        st2['mem'] = dict(st['mem'])
+        ex.write_ref(st2, r, Slice(z3.IntVal(len(v.elems) + 1), list(v.elems) + [args[1]], 'vec'))
+        return [('ret', Struct([]), path, st2['mem'])]
+
+    def c_vec_len(ex, st, args, path, callee):
+        return ret(d(ex, args[0]).length, path)
+
+    def c_first_val(ex, st, args, path, callee):
+        return ret(d(ex, args[0]), path)
+
+    def c_map_insert(ex, st, args, path, callee):
+        r = args[0]
+        v = ex.read_ref(st['mem'], r)
+        key = d(ex, args[1])
+        for e in v.elems:
+            if z3.is_true(z3.simplify(e.fields[0] == key)):
+                return ret(SOME(e.fields[1]), path)
+        st2 = dict(st)
+        st2['mem'] = dict(st['mem'])
+        ex.write_ref(st2, r, Slice(z3.IntVal(len(v.elems) + 1), list(v.elems) + [Struct([key, args[2]])], 'map'))
+        return [('ret', NONE(), path, st2['mem'])]
+
+    def c_unzip(ex, st, args, path, callee):
+        v = d(ex, args[0])
+        items = pending(v) if isinstance(v, Struct) and v.ty == 'SeqIter' else [('val', e) for e in v.elems]
+        pairs = [d(ex, it[1]) for it in items]
+        return ret(Struct([Slice(z3.IntVal(len(pairs)), [p.fields[0] for p in pairs], 'names'), Slice(z3.IntVal(len(pairs)), [p.fields[1] for p in pairs], 'kinds')]), path)
+
+    def c_vec_into_iter(ex, st, args, path, callee):
+        v = d(ex, args[0])
+        return ret(mk([('val', e) for e in v.elems]), path)
+    return [
+        ('Vec::with_capacity / SymbolMap::with_capacity = empty', r'^Vec::<.*>::with_capacity$|^SymbolMap::<.*>::with_capacity$', c_vec_new),
+        ('Vec::push', r'^Vec::<.*>::push$', c_vec_push),
+        ('Vec::len', r'^Vec::<.*>::len$', c_vec_len),
+        ('str::to_owned = the name', r'^<str as ToOwned>::to_owned$', c_first_val),
+        ('SymbolMap::insert(name, index) = None for a new name', r'^SymbolMap::<u32>::insert$', c_map_insert),
+        ('Vec::into_iter (by value)', r'^<Vec<.*> as IntoIterator>::into_iter$', c_vec_into_iter),
+        ('Iterator::unzip = the two columns', r' as Iterator>::unzip::<', c_unzip),
+        ('Vec::into_boxed_slice = the sequence', r'^Vec::<.*>::into_boxed_slice$', c_first_val),
+    ] + ITER
+
+
+def run_builder(sess, ob, po, pn, has_args, no, has_kwargs):
+    """new_parts' sequence of builder calls (its loops over the caller's iterators are replayed here call by call) for
+    `po` positional-only, `pn` positional-or-named, `no` named-only parameters; every parameter kind solver-chosen.
+    The finished spec must be the one the binder obligations assume."""
+    mexec.ENUMS['ParameterKind'] = PK
+    mexec.ENUMS['ParametersSpecParam'] = ['Required', 'Optional', 'Defaulted']
+    mexec.ENUMS['CurrentParameterStyle'] = ['PosOnly', 'PosOrNamed', 'NamedOnly', 'NoMore']
+    ex = sess.executor(True, extra=builder_contracts())
+    ex.max_depth = 40
+    total = po + pn + no
+    kinds = [z3.Int(f'bk{i}') for i in range(total)]
+    conds = []
+    for kx in kinds:
+        conds += [kx >= 0, kx <= 2]
+    B = ('h', 'builder')
+
+    def F(name, pat=None):
+        return ex.get_fn(sess.db.find_in_file('params/spec.rs', name, pat))
+    wc = F('with_capacity', r'_1: std::string::String, _2: usize')
+    states = [(Path(conds), {})]
+
+    def step(states, fn, mkargs):
+        out = []
+        for p, m in states:
+            for v, p2, m2 in ex.run(fn, mkargs(m), p, mem=m):
+                out.append((p2, m2, v))
+        return out
+    # with_capacity returns the builder by value
+    st2 = []
+    for p, m, v in step(states, wc, lambda m: [Opaque('function_name'), z3.IntVal(total + has_args + has_kwargs)]):
+        m = dict(m)
+        m[B] = v
+        st2.append((p, m))
+    states = st2
+    seq = []
+    idx = 0
+    for _ in range(po):
+        seq.append(('param', idx))
+        idx += 1
+    seq.append(('no_more_positional_only_args', None))
+    for _ in range(pn):
+        seq.append(('param', idx))
+        idx += 1
+    seq.append(('args' if has_args else 'no_more_positional_args', None))
+    for _ in range(no):
+        seq.append(('param', idx))
+        idx += 1
+    if has_kwargs:
+        seq.append(('kwargs', None))
+    pfn = F('param', r'_3: ParametersSpecParam<V>')
+    for name, i in seq:
+        if name == 'param':
+            fn = pfn
+            arg = lambda m, i=i: [Ref(B), z3.IntVal(1000 + i), SymEnum('ParametersSpecParam', kinds[i], {0: z3.IntVal(500 + i)})]
+        else:
+            fn = F(name, r'_1: &mut ParametersSpecBuilder<V>\)')
+            arg = lambda m: [Ref(B)]
+        states = [(p, m) for p, m, v in step(states, fn, arg)]
+    fin = F('finish', r'_1: ParametersSpecBuilder<V>\)')
+    finals = []
+    for p, m in states:
+        for v, p2, m2 in ex.run(fin, [m[B]], p, mem=m):
+            finals.append((v, p2, m2))
+    ob.paths += len(finals)
+    # expected layout
+    order = list(range(po + pn)) + (['*'] if has_args else []) + list(range(po + pn, total)) + (['**'] if has_kwargs else [])
+    exp_npos, exp_npo = po + pn, po
+    exp_args = order.index('*') if has_args else None
+    exp_kwargs = order.index('**') if has_kwargs else None
+    exp_names = {1000 + j: order.index(j) for j in range(total) if j >= po}
+    inst = 0
+    for v, p, m in finals:
+        spec = ex.deref(m, v)
+        f = [ex.deref(m, x) for x in spec.fields]
+        kinds_sl, names_sl, names_map, ind = f[1], f[2], f[3], f[4]
+        checks = []
+        got_layout = []
+        for e in kinds_sl.elems:
+            e = ex.deref(m, e)
+            got_layout.append(e)
+        if len(got_layout) != len(order):
+            ob.fail({'kind': 'builder', 'shape': [po, pn, has_args, no, has_kwargs], 'what': f'{len(got_layout)} parameter kinds for {len(order)} parameters'})
+            continue
+        viol = []
+        for pos, (e, o) in enumerate(zip(got_layout, order)):
+            if o == '*' or o == '**':
+                okk = isinstance(e, Enum) and e.variant == ('Args' if o == '*' else 'KWargs')
+                if not okk:
+                    viol.append(z3.BoolVal(True))
+            else:
+                # Required -> Required, Optional -> Optional, Defaulted(x) -> Defaulted(x)
+                if isinstance(e, SymEnum):
+                    viol.append(e.tag != kinds[o])
+                elif isinstance(e, Enum):
+                    viol.append(kinds[o] != PK.index(e.variant))
+                    if e.variant == 'Defaulted':
+                        viol.append(ex.deref(m, e.fields[0]) != 500 + o)
+                else:
+                    viol.append(z3.BoolVal(True))
+        indf = [ex.deref(m, x) for x in ind.fields]
+        viol += [indf[0] != exp_npos, indf[1] != exp_npo]
+        for got, want in ((indf[2], exp_args), (indf[3], exp_kwargs)):
+            if want is None:
+                viol.append(z3.BoolVal(not (isinstance(got, Enum) and got.variant == 'None')))
+            else:
+                viol.append(z3.BoolVal(True) if not (isinstance(got, Enum) and got.variant == 'Some') else ex.deref(m, got.fields[0]) != want)
+        gotmap = {}
+        for e in names_map.elems:
+            k_ = z3.simplify(e.fields[0])
+            v_ = z3.simplify(e.fields[1])
+            gotmap[k_.as_long()] = v_.as_long() if z3.is_int_value(v_) else str(v_)
+        viol.append(z3.BoolVal(gotmap != exp_names))
+        r, model = sess.decide(ob, list(p.conds) + [z3.Or(viol)])
+        inst += 1
+        if r == 'sat':
+            ob.fail({'kind': 'builder', 'shape': [po, pn, has_args, no, has_kwargs], 'kinds': [PK[model_int(model, kx)] for kx in kinds],
+                     'what': f'finished spec differs from the layout the binder relies on: indices {[str(z3.simplify(model.eval(x, model_completion=True))) if z3.is_expr(x) else str(x) for x in indf]}, names {gotmap}; expected num_positional={exp_npos}, num_positional_only={exp_npo}, args={exp_args}, kwargs={exp_kwargs}, names {exp_names}'})
+        elif r == 'unknown':
+            ob.inconclusive('solver unknown')
+    for pn_ in ex.panics:
+        sess.panic_edges_checked += 1
+        r, model = sess.decide(ob, pn_.conds)
+        if r == 'sat':
+            ob.fail({'kind': 'builder', 'shape': [po, pn, has_args, no, has_kwargs], 'kinds': [PK[model_int(model, kx)] for kx in kinds], 'what': 'panic: ' + pn_.msg, 'panic': pn_.msg})
     sess.absorb(ex)
     return inst
